@@ -61,10 +61,17 @@ def check(chk: Check) -> None:
             good, other = 0, 0
             transformed = []
             for p_ in rm.paths:
+                value_replaced = None
                 for e in p_.events:
+                    if e.kind == 'store_attr' and e.attr == 'value' and freeze(e.obj) == tp:
+                        value_replaced = e
                     if e.kind == 'aug_attr' and e.attr == 'lineno':
                         v_ = A_.strip_ids(freeze(e.value))
-                        if e.op == '+' and v_ == cnt:
+                        if e.op == '+' and v_ == cnt and value_replaced is not None and A_.strip_ids(freeze(value_replaced.value)) != ('attr', tp, 'value'):
+                            # t.value no longer is the matched text when the count is taken
+                            other += 1
+                            transformed.append('t.value after `%s`' % value_replaced.text()[:100])
+                        elif e.op == '+' and v_ == cnt:
                             good += 1
                         else:
                             other += 1
